@@ -25,7 +25,7 @@ Variable pv : N.
 Variable sv : N.
 Variable bound : N.
 Variable u : counts.
-Variable fl : list (N * nat).
+Variable fl : list (N * kind).
 Variable W : world.
 
 (* ------------------------------------------------------------------ statements: semantics *)
@@ -64,49 +64,98 @@ Proof. intros H. rewrite nth_error_app1; [exact H | apply nth_error_Some; congru
 Lemma nth_error_app_new {A} (l : list A) x : nth_error (l ++ [x]) (length l) = Some x.
 Proof. rewrite nth_error_app2 by lia. rewrite Nat.sub_diag. reflexivity. Qed.
 
-(* the world invariant when a new user variable is defined on both sides *)
-Lemma winv_define_user sc e st E stL var x v :
-  winv pv sv bound u fl W sc e st E stL -> ~ In var sc -> ~ In var (fnames fl) -> var <> pv ->
-  winv pv sv bound u fl W (var :: sc) ((var, length (SyltSem.cells st)) :: e) (s_alloc st x)
-       (sset (fmt_var var) (s_ncell stL) E) (snd (alloc_cell stL v)).
+(* the world with the two cells of a new user variable *)
+Definition world_addR (W0 : world) (c : nat) (p : positive) : world :=
+  mkWorld (fun c' p' => w_R W0 c' p' \/ (c' = c /\ p' = p)) (w_F W0) (w_D W0) (w_P W0) (w_pc W0).
+
+Lemma wsub_addR W0 c p : wsub W0 (world_addR W0 c p).
+Proof. unfold wsub, world_addR. cbn. repeat split; auto. Qed.
+
+(* the world invariant when a new user variable is defined on both sides (scope and environments: later) *)
+Lemma winv_addR fl0 W0 sc e st E stL x v :
+  winv pv sv bound u fl0 W0 sc e st E stL -> wfenv E stL -> vrel x v ->
+  winv pv sv bound u fl0 (world_addR W0 (length (SyltSem.cells st)) (s_ncell stL)) sc e (s_alloc st x) E (snd (alloc_cell stL v)).
 Proof.
-  intros Hw Hnin Hnfl Hnpv.
-  assert (Hw1 : winv pv sv bound u fl W sc e (s_alloc st x) E (snd (alloc_cell stL v))).
-  { apply (winv_states pv sv bound u fl W sc e st E stL _ _ Hw); auto.
-    - intros c y Hy. cbn [s_alloc SyltSem.cells]. pose proof (wi_IS _ _ _ _ _ _ _ _ _ _ _ Hw c y Hy) as Hn.
-      rewrite nth_error_app1; [reflexivity | apply nth_error_Some; congruence].
-    - intros p lv Hp. apply get_cell_alloc_old. apply (wi_IL _ _ _ _ _ _ _ _ _ _ _ Hw p lv Hp).
-    - cbn; lia. }
-  apply (winv_env pv sv bound u fl W sc e _ E _ _ _ _ Hw1).
-  - intros w c y [<-|Hin] Hlk Hy; cbn [SyltSem.lookup] in Hlk.
-    + rewrite N.eqb_refl in Hlk. inversion Hlk; subst c.
-      pose proof (wi_IS _ _ _ _ _ _ _ _ _ _ _ Hw _ _ Hy) as Hn.
-      assert (length (SyltSem.cells st) < length (SyltSem.cells st))%nat by (apply nth_error_Some; congruence). lia.
-    + destruct (N.eqb_spec var w) as [->|]; [contradiction|]. exact (wi_scS _ _ _ _ _ _ _ _ _ _ _ Hw w c y Hin Hlk Hy).
-  - intros w [<-|Hin]; [exact Hnfl | apply (wi_scfl _ _ _ _ _ _ _ _ _ _ _ Hw w Hin)].
-  - intros w p lv [<-|Hin] Hy Hp.
-    + rewrite sget_sset_same in Hy. inversion Hy; subst p. destruct (wi_IL _ _ _ _ _ _ _ _ _ _ _ Hw _ _ Hp) as [_ Hlt]. lia.
-    + rewrite sget_sset_var in Hy by (intros ->; contradiction). exact (wi_lprot _ _ _ _ _ _ _ _ _ _ _ Hw w p lv Hin Hy Hp).
-  - intros d Hd Hvis. destruct (wi_vsc _ _ _ _ _ _ _ _ _ _ _ Hw d Hd Hvis) as [Hisc Hifl].
-    assert (Hne : forall g, fvis d g \/ g = pv \/ g = fd_var d -> var <> g).
-    { intros g [[Hg|Hg]|[Hg|Hg]] Heq.
-      - subst g. apply Hnin. apply Hisc. exact Hg.
-      - subst g. apply Hnfl. unfold fnames in *. apply (incl_map fst Hifl). exact Hg.
-      - apply Hnpv. congruence.
-      - apply Hnfl. rewrite Heq, Hg. exact Hvis. }
-    apply (fvisS_same pv e _ d (wi_visS _ _ _ _ _ _ _ _ _ _ _ Hw d Hd Hvis)).
-    + cbn [SyltSem.lookup]. destruct (N.eqb_spec var (fd_var d)) as [Heq|]; [|reflexivity].
-      exfalso. apply (Hne (fd_var d)); [right; right; reflexivity | exact Heq].
-    + intros g Hg. cbn [SyltSem.lookup]. destruct (N.eqb_spec var g) as [Heq|]; [|reflexivity].
-      exfalso. apply (Hne g); [destruct Hg as [Hg|Hg]; [left; exact Hg | right; left; exact Hg] | exact Heq].
-  - intros d Hd Hvis. destruct (wi_vsc _ _ _ _ _ _ _ _ _ _ _ Hw d Hd Hvis) as [Hisc Hifl].
-    apply (fvisL_same E _ d (wi_visL _ _ _ _ _ _ _ _ _ _ _ Hw d Hd Hvis)).
-    + apply sget_sset_var. intros Heq. apply Hnfl. rewrite <- Heq. exact Hvis.
-    + intros g [Hg|Hg]; apply sget_sset_var; intros Heq; subst g.
-      * apply Hnin. apply Hisc. exact Hg.
-      * apply Hnfl. unfold fnames in *. apply (incl_map fst Hifl). exact Hg.
-  - intros d Hd Hvis. destruct (wi_vsc _ _ _ _ _ _ _ _ _ _ _ Hw d Hd Hvis) as [Hisc Hifl].
-    split; [apply incl_tl; exact Hisc | exact Hifl].
+  intros Hw Hwf Hxv.
+  pose proof Hw as [H1 H2 H3 H4 H5 H6 H7 Hff H8 H9 H10 Hall Hlock H11 H13 H14].
+  assert (HRc : forall c p, w_R W0 c p -> (c < length (SyltSem.cells st))%nat /\ (p < s_ncell stL)%positive).
+  { intros c p Hr. destruct (H1 c p Hr) as (y & A & _ & B). split; [apply nth_error_Some; congruence | exact B]. }
+  assert (HFc : forall c p d, w_F W0 c p d -> (c < length (SyltSem.cells st))%nat /\ (p < s_ncell stL)%positive).
+  { intros c p d Hf. destruct (H6 c p d Hf) as (A & _ & B & _). split; [apply nth_error_Some; congruence | exact B]. }
+  constructor; cbn [world_addR w_R w_F w_D w_P w_pc].
+  - intros c p [Hr|[-> ->]].
+    + destruct (H1 c p Hr) as (y & A & B & C). exists y. split; [apply nth_error_app_old; exact A|].
+      split; [rewrite get_cell_alloc_old; assumption | cbn; lia].
+    + exists x. split; [apply nth_error_app_new|]. split; [rewrite get_cell_alloc_new; exact Hxv | cbn; lia].
+  - intros c p p' [Hr|[-> ->]] [Hr'|[Hc' ->]]; try reflexivity.
+    + eapply H2; eassumption.
+    + subst c. destruct (HRc _ _ Hr). lia.
+    + destruct (HRc _ _ Hr'). lia.
+  - intros c c' p [Hr|[-> ->]] [Hr'|[-> Hp']]; try reflexivity.
+    + eapply H3; eassumption.
+    + subst p. destruct (HRc _ _ Hr). lia.
+    + destruct (HRc _ _ Hr'). lia.
+  - intros c p [Hr|[-> ->]].
+    + apply H4. exact Hr.
+    + split; [intros p' d Hf; destruct (HFc _ _ _ Hf); lia | intros c' d Hf; destruct (HFc _ _ _ Hf); lia].
+  - intros c p lv [Hr|[-> ->]]; [exact (H5 c p lv Hr)|]. intros Hp. destruct (H8 _ _ Hp). lia.
+  - intros c p d Hf. destruct (H6 c p d Hf) as (A & B & C & D).
+    split; [apply nth_error_app_old; exact A|]. split; [rewrite get_cell_alloc_old; assumption|]. split; [cbn; lia | exact D].
+  - exact H7.
+  - exact Hff.
+  - intros p lv Hp. destruct (H8 p lv Hp) as [A B]. split; [rewrite get_cell_alloc_old; assumption | cbn; lia].
+  - apply nth_error_app_old. exact H9.
+  - intros d Hd. destruct (H10 d Hd) as (A & B & C & D & F & G & G' & Hsc & Hfl & Htm).
+    split; [exact A|]. split; [exact B|]. split; [exact C|]. split; [intros y p Hy; specialize (D y p Hy); cbn; lia|].
+    split; [exact F|]. split; [exact G|]. split; [exact G'|].
+    split; [intros g Hg; destruct (Hsc g Hg) as (c & p & X & Y & Z); exists c, p; auto|]. split; [exact Hfl|].
+    intros t p Hbt Hq. destruct (Htm t p Hbt Hq) as [Hn1 Hn2]. split; [|exact Hn2].
+    intros c [Hr|[-> ->]]; [exact (Hn1 c Hr)|]. specialize (D _ _ Hq). lia.
+  - exact Hall.
+  - exact Hlock.
+  - intros w Hin. destruct (H11 w Hin) as (c & p & X & Y & Z). exists c, p. auto.
+  - exact H13.
+  - intros t p Hbt Hq. destruct (H14 t p Hbt Hq) as [Hn1 Hn2]. split; [|exact Hn2].
+    intros c [Hr|[-> ->]]; [exact (Hn1 c Hr)|]. 
+    pose proof (wf_alloc _ _ Hwf _ _ Hq). lia.
+Qed.
+
+(* a new user variable: `local V<var> = <v>` / new_cell x, with related values *)
+Lemma rel_define_user sc e st E stL var x v :
+  rel sc e st E stL -> fresh_id pv sv bound fl sc var = true -> vrel x v ->
+  rel (var :: sc) ((var, length (SyltSem.cells st)) :: e) (s_alloc st x)
+      (sset (fmt_var var) (s_ncell stL) E) (snd (alloc_cell stL v)).
+Proof.
+  intros (Hfs & W1 & Hs1 & [Hb Hfb Hp Hpb HpE HpG Hwf Ht Hli HW]) Hfresh Hxv.
+  destruct (fresh_id_inv _ _ Hfresh) as (Hnin & Hnpv & Hnsv & Hvb). pose proof (fresh_id_fl _ _ Hfresh) as Hnfl.
+  split.
+  { intros f ar Hin. destruct (Hfs f ar Hin) as (c & p & d & A & B & C). exists c, p, d.
+    assert (Hne : f <> var).
+    { intros ->. apply Hnfl. unfold fnames. change var with (fst (var, ar)). apply in_map. exact Hin. }
+    cbn [SyltSem.lookup]. destruct (N.eqb_spec var f); [congruence|].
+    split; [exact A | split; [rewrite sget_sset_var by exact Hne; exact B | exact C]]. }
+  exists (world_addR W1 (length (SyltSem.cells st)) (s_ncell stL)). split; [eapply wsub_trans; [exact Hs1 | apply wsub_addR]|].
+  pose proof (winv_addR fl W1 sc e st E stL x v HW Hwf Hxv) as HW2.
+  constructor.
+  - intros w [<-|Hin]; [split; assumption | apply Hb; exact Hin].
+  - exact Hfb.
+  - cbn [SyltSem.lookup world_addR w_pc]. destruct (N.eqb_spec var pv); [congruence | exact Hp].
+  - exact Hpb.
+  - rewrite sget_sset_var by (intros Heq; apply Hnpv; symmetry; exact Heq). exact HpE.
+  - eapply glob_frame; [|exact HpG]. reflexivity.
+  - apply wfenv_local. exact Hwf.
+  - exact Ht.
+  - apply linv_alloc_cell. exact Hli.
+  - apply (winv_env pv sv bound u fl _ sc e _ E _ fl (var :: sc) _ _ HW2).
+    + intros w [<-|Hin].
+      * exists (length (SyltSem.cells st)), (s_ncell stL). cbn [SyltSem.lookup]. rewrite N.eqb_refl.
+        split; [reflexivity | split; [apply sget_sset_same | right; split; reflexivity]].
+      * destruct (wi_sc _ _ _ _ _ _ _ _ _ _ _ HW w Hin) as (c & p & A & B & C). exists c, p.
+        assert (Hne : w <> var) by (intros ->; contradiction).
+        cbn [SyltSem.lookup]. destruct (N.eqb_spec var w); [congruence|].
+        split; [exact A | split; [rewrite sget_sset_var by exact Hne; exact B | left; exact C]].
+    + intros w [<-|Hin]; [exact Hnfl | apply (wi_scfl _ _ _ _ _ _ _ _ _ _ _ HW w Hin)].
+    + intros t p Hbt Hq. rewrite sget_sset_var in Hq by lia. apply (wi_temps _ _ _ _ _ _ _ _ _ _ _ HW2 t p Hbt Hq).
 Qed.
 
 (* IDefine var for a user variable: `local V<var> = nil`;  SyltSem: new_cell (SV VLuaNil) *)
@@ -118,7 +167,7 @@ Lemma step_define_user sc e st F c E stL l var :
 Proof.
   intros Hrel Hl Hfresh Hu. destruct (fresh_id_inv _ _ Hfresh) as (Hnin & Hnpv & Hnsv & Hvb).
   pose proof (fresh_id_fl _ _ Hfresh) as Hnfl.
-  pose proof Hrel as [Hv Hb Hi Hp Hpb HpE HpG Hwf Ht Hli HW].
+  pose proof (r_wf _ _ _ _ _ _ _ _ _ _ _ Hrel) as Hwf.
   cbn [agen_one]. assert (Hused : (0 <? count_of u var) = true) by (apply N.ltb_lt; lia). rewrite Hused. cbn [fst].
   rewrite (aname_none l var) by (apply Hl; right; exact Hvb).
   assert (Hex : Exec E (SLocal [fmt_var var] [ENil]) stL
@@ -135,43 +184,8 @@ Proof.
       * left. rewrite sget_sset_other in H by exact Hne. exact H.
     + intros t p _ _ H. apply get_cell_alloc_old. eapply wf_alloc; eassumption.
     + cbn; lia.
-  - constructor.
-    + intros w [<-|Hin].
-      * exists (length (SyltSem.cells st)), (SV Values.VLuaNil), (s_ncell stL).
-        cbn [SyltSem.lookup]. rewrite N.eqb_refl. splits; [reflexivity | apply nth_error_app_new | apply sget_sset_same |].
-        rewrite get_cell_alloc_new. constructor.
-      * destruct (Hv w Hin) as (cc & x & p & H1 & H2 & H3 & H4).
-        assert (Hne : w <> var) by (intros ->; contradiction).
-        exists cc, x, p. cbn [SyltSem.lookup]. destruct (N.eqb_spec var w); [congruence|].
-        splits; [exact H1 | apply nth_error_app_old; exact H2 | rewrite sget_sset_var by exact Hne; exact H3 |].
-        rewrite get_cell_alloc_old; [exact H4 | eapply wf_alloc; eassumption].
-    + intros w [<-|Hin]; [split; assumption | apply Hb; exact Hin].
-    + assert (Hold : forall w cc, In w sc -> SyltSem.lookup e w = Some cc -> (cc < length (SyltSem.cells st))%nat).
-      { intros w cc Hin Hlk. destruct (Hv w Hin) as (cc' & x & p & H1 & H2 & _). rewrite Hlk in H1. inversion H1; subst.
-        apply nth_error_Some. congruence. }
-      intros v1 v2 cc H1 H2. cbn [SyltSem.lookup].
-      destruct H1 as [<-|H1]; destruct H2 as [<-|H2]; rewrite ?N.eqb_refl.
-      * auto.
-      * destruct (N.eqb_spec var v2); [auto|]. intros Ha Hb2. inversion Ha; subst.
-        specialize (Hold v2 _ H2 Hb2). lia.
-      * destruct (N.eqb_spec var v1); [auto|]. intros Ha Hb2. inversion Hb2; subst.
-        specialize (Hold v1 _ H1 Ha). lia.
-      * destruct (N.eqb_spec var v1) as [->|]; [contradiction|]. destruct (N.eqb_spec var v2) as [->|]; [contradiction|].
-        apply Hi; assumption.
-    + destruct Hp as (cp & Hlkp & Hnthp & Hdist).
-      exists cp. cbn [SyltSem.lookup]. destruct (N.eqb_spec var pv); [congruence|].
-      splits; [exact Hlkp | apply nth_error_app_old; exact Hnthp |].
-      intros w [<-|Hin]; rewrite ?N.eqb_refl.
-      * intros Heq. inversion Heq; subst. assert (length (SyltSem.cells st) < length (SyltSem.cells st))%nat by (apply nth_error_Some; congruence). lia.
-      * destruct (N.eqb_spec var w) as [->|]; [contradiction|]. apply Hdist. exact Hin.
-    + exact Hpb.
-    + rewrite sget_sset_var by (intros Heq; apply Hnpv; symmetry; exact Heq). exact HpE.
-    + eapply glob_frame; [|exact HpG]. reflexivity.
-    + apply wfenv_local. exact Hwf.
-    + exact Ht.
-    + apply linv_alloc_cell. exact Hli.
-    + apply winv_define_user; assumption.
-  - intros w Hw. apply sget_sset_var. intros ->. contradiction.
+  - apply rel_define_user; [exact Hrel | exact Hfresh | constructor].
+  - intros w [Hw|Hw]; apply sget_sset_var; intros ->; contradiction.
 Qed.
 
 
@@ -187,6 +201,41 @@ Proof.
   apply IH. congruence.
 Qed.
 
+(* writing the two cells of a user variable in scope with related values *)
+Lemma rel_assign_user sc e st E stL var cc p x v :
+  rel sc e st E stL -> In var sc -> SyltSem.lookup e var = Some cc -> sget (fmt_var var) E = Some p -> vrel x v ->
+  rel sc e (s_write st cc x) E (set_cell stL p v).
+Proof.
+  intros (Hfs & W1 & Hs1 & [Hb Hfb Hp Hpb HpE HpG Hwf Ht Hli HW]) Hin Hlk Hq Hxv.
+  destruct (wi_sc _ _ _ _ _ _ _ _ _ _ _ HW var Hin) as (c0 & p0 & A & B & HR). rewrite Hlk in A. inversion A; subst c0. rewrite Hq in B. inversion B; subst p0.
+  destruct (wi_R _ _ _ _ _ _ _ _ _ _ _ HW cc p HR) as (x0 & Hx0 & _ & Hplt).
+  assert (Hccl : (cc < length (SyltSem.cells st))%nat) by (apply nth_error_Some; congruence).
+  split; [exact Hfs|]. exists W1. split; [exact Hs1|]. constructor.
+  - exact Hb.
+  - exact Hfb.
+  - exact Hp.
+  - exact Hpb.
+  - exact HpE.
+  - eapply glob_frame; [|exact HpG]. reflexivity.
+  - eapply wfenv_ext; [exact Hwf | cbn; lia].
+  - exact Ht.
+  - apply linv_set_cell. exact Hli.
+  - apply (winv_states pv sv bound u fl W1 sc e st E stL (s_write st cc x) (set_cell stL p v) HW).
+    + intros c Hn _. cbn [s_write SyltSem.cells]. apply nth_set_nth_other. intros <-. exact (Hn p HR).
+    + intros c q Hr. destruct (Nat.eq_dec c cc) as [->|Hne].
+      * assert (q = p) by (eapply (wi_Rfun _ _ _ _ _ _ _ _ _ _ _ HW); eassumption). subst q.
+        exists x. split; [cbn [s_write SyltSem.cells]; apply nth_set_nth_same; exact Hccl | rewrite get_cell_set_same; exact Hxv].
+      * destruct (wi_R _ _ _ _ _ _ _ _ _ _ _ HW c q Hr) as (y & Hy & Hvy & _). exists y.
+        split; [cbn [s_write SyltSem.cells]; rewrite nth_set_nth_other; [exact Hy | congruence]|].
+        rewrite get_cell_set_other; [exact Hvy|]. intros ->. apply Hne. eapply (wi_Rinj _ _ _ _ _ _ _ _ _ _ _ HW); eassumption.
+    + reflexivity.
+    + intros c q d Hf. apply get_cell_set_other. intros ->. destruct (wi_RF _ _ _ _ _ _ _ _ _ _ _ HW cc p HR) as [_ Hn]. exact (Hn c d Hf).
+    + intros q lv Hpq. apply get_cell_set_other. intros ->. exact (wi_RP _ _ _ _ _ _ _ _ _ _ _ HW cc p lv HR Hpq).
+    + cbn; lia.
+    + reflexivity.
+    + reflexivity.
+Qed.
+
 (* IAssign var a for a user variable in scope: `V<var> = xa`;  SyltSem: write_cell *)
 Lemma step_assign_user sc e st F c c' E stL l var a sv_ cc :
   rel sc e st E stL -> lut_ok bound l c c' -> In var sc -> 1 <= count_of u var ->
@@ -195,9 +244,9 @@ Lemma step_assign_user sc e st F c c' E stL l var a sv_ cc :
   exists stL', okstepS sc sc e (s_write st cc sv_) F c c' E stL (fst (agen_one u l (IAssign var a))) E stL' F.
 Proof.
   intros Hrel Hl Hin Hu Hlk Hd.
-  pose proof Hrel as [Hv Hb Hi Hp Hpb HpE HpG Hwf Ht Hli HW].
-  destruct (Hv var Hin) as (cc' & x0 & p & H1 & H2 & H3 & H4). rewrite Hlk in H1. inversion H1; subst cc'. clear H1.
-  destruct (Hb var Hin) as [Hvb Hvp].
+  pose proof (r_wf _ _ _ _ _ _ _ _ _ _ _ Hrel) as Hwf. pose proof (r_linv _ _ _ _ _ _ _ _ _ _ _ Hrel) as Hli.
+  destruct (r_vars _ _ _ _ _ _ _ _ _ _ _ Hrel var Hin) as (cc' & x0 & p & H1 & H2 & H3 & H4). rewrite Hlk in H1. inversion H1; subst cc'. clear H1.
+  destruct (r_scb _ _ _ _ _ _ _ _ _ _ _ Hrel var Hin) as [Hvb Hvp].
   cbn [agen_one]. assert (Hused : (0 <? count_of u var) = true) by (apply N.ltb_lt; lia). rewrite Hused. cbn [fst].
   rewrite (aexpand_user bound l c c' var Hl Hvb).
   destruct (denotes_now _ _ _ _ _ Hd Hwf Hli) as (lv & Hvr & st1 & _ & Hm & Hx1).
@@ -211,34 +260,7 @@ Proof.
       * apply Hx1. eapply wf_alloc; eassumption.
       * intros ->. assert (fmt_var t = fmt_var var) by (eapply wf_inj; eassumption). apply fmt_var_inj in H. lia.
     + cbn [set_cell s_ncell]. apply Hx1.
-  - pose proof Hrel1 as [Hv1 _ _ _ _ _ HpG1 Hwf1 Ht1 Hli1 HW1].
-    assert (Hccl : (cc < length (SyltSem.cells st))%nat) by (apply nth_error_Some; congruence).
-    constructor.
-    + intros w Hw. destruct (Hv1 w Hw) as (cw & xw & pw & Hw1 & Hw2 & Hw3 & Hw4).
-      destruct (N.eq_dec w var) as [->|Hne].
-      * rewrite Hlk in Hw1. inversion Hw1; subst cw. rewrite H3 in Hw3. inversion Hw3; subst pw.
-        exists cc, sv_, p. splits; [exact Hlk | apply nth_set_nth_same; exact Hccl | exact H3 | rewrite get_cell_set_same; exact Hvr].
-      * exists cw, xw, pw. splits; [exact Hw1 | | exact Hw3 |].
-        -- cbn [s_write SyltSem.cells]. rewrite nth_set_nth_other; [exact Hw2|].
-           intros ->. apply Hne. eapply Hi; eassumption.
-        -- rewrite get_cell_set_other; [exact Hw4|].
-           intros ->. apply Hne. apply fmt_var_inj. eapply wf_inj; eassumption.
-    + exact Hb.
-    + exact Hi.
-    + destruct Hp as (cp & Hlkp & Hnthp & Hdist). exists cp. splits; [exact Hlkp | | exact Hdist].
-      cbn [s_write SyltSem.cells]. rewrite nth_set_nth_other; [exact Hnthp|].
-      intros ->. eapply Hdist; eassumption.
-    + exact Hpb.
-    + exact HpE.
-    + eapply glob_frame; [|exact HpG1]. reflexivity.
-    + eapply wfenv_ext; [exact Hwf1 | cbn; lia].
-    + exact Ht1.
-    + apply linv_set_cell. exact Hli1.
-    + apply (winv_states pv sv bound u fl W sc e st E st1 _ _ HW1); auto; [| |cbn; lia].
-      * intros c0 y Hy. cbn [s_write SyltSem.cells]. apply nth_set_nth_other. intros <-.
-        exact (wi_scS _ _ _ _ _ _ _ _ _ _ _ HW1 var cc y Hin Hlk Hy).
-      * intros q lv0 Hq. apply get_cell_set_other. intros ->.
-        exact (wi_lprot _ _ _ _ _ _ _ _ _ _ _ HW1 var p lv0 Hin H3 Hq).
+  - eapply rel_assign_user; eassumption.
 Qed.
 
 
@@ -253,7 +275,7 @@ Proof.
   split; [eapply ExecS_app; eassumption|]. split.
   - eapply wframe_trans; [eapply wframe_widen; [exact Hf1 | lia | lia] | eapply wframe_widen; [exact Hf2 | lia | lia]].
   - split; [exact Hr2 | split; [eapply F_new_trans; eassumption|]].
-    intros v Hv. rewrite (Hk2 v (Hi v Hv)). apply Hk1. exact Hv.
+    eapply keep_trans_incl; eassumption.
 Qed.
 
 Lemma ctx_afterS sc sc1 e1 st1 l F E stL c c0 c1 l1 b E1 stL1 F1 code bl :
@@ -310,7 +332,7 @@ Lemma rel_back sc sc1 e e1 st st1 F F1 a b E stL b1 E1 stL1 :
   rel sc e st1 E stL1.
 Proof.
   intros (Hx1 & Hf1 & Hr1 & Hn1 & Hk1) Hrel Hse Hinc.
-  eapply (rel_restrict pv sv bound u fl W sc e st e st1 E E1 stL stL1); [exact Hrel | eapply rel_shrink; eassumption | exact Hk1 |].
+  eapply (rel_restrict pv sv bound u fl W sc e st e st1 E E1 stL stL1); [exact Hrel | eapply rel_shrink; eassumption | exact Hk1 | apply (wr_incl _ _ _ _ _ _ _ Hf1) |].
   apply (wr_ncell _ _ _ _ _ _ _ Hf1).
 Qed.
 
@@ -673,14 +695,14 @@ Proof.
               [exact Hokp | exact Hrel0 | apply sext_refl | apply incl_refl | exact Hpost | lia | lia | lia | lia]. }
         destruct rb as [e2|o|[| |v]].
         + (* the body ran to its end *)
-          cbn [blk_post] in Hpost. destruct Hpost as (W2 & E2 & sL2 & F2 & Hx2 & Hf2 & Hrel2 & Hw2 & _ & Hk2 & Hse2 & Hinc2 & _).
+          cbn [blk_post] in Hpost. destruct Hpost as (W2 & E2 & sL2 & F2 & Hx2 & Hf2 & Hrel2 & Hw2 & _ & Hk2 & Hse2 & Hinc2).
           destruct Hokp as (Hxp0 & Hfp & _ & _ & Hkp).
           assert (Hfall : wframe bound c c' E sL0 E2 sL2)
             by (eapply wframe_trans; [eapply wframe_widen; [exact Hfp | lia | lia] | eapply wframe_widen; [exact Hf2 | lia | lia]]).
           eapply (Hcont s2 E2 SigNormal sL2); [left; reflexivity | rewrite <- HeqBB; eapply ExecS_app; eassumption | | | exact Hgo].
           * eapply (rel_leave pv sv bound u fl W flb W2 sc scb e e2 s0 s2 E E2 sL0 sL2);
-              [exact Hrel0 | exact Hrel2 | exact Hw2 | eapply frag_stmts_fnames; exact Hfb | exact Hinc2 | exact Hse2 | | apply (wr_ncell _ _ _ _ _ _ _ Hfall)].
-            intros w Hw. rewrite (Hk2 w Hw). apply Hkp. exact Hw.
+              [exact Hrel0 | exact Hrel2 | exact Hw2 | eapply frag_stmts_flincl; exact Hfb | exact Hinc2 | exact Hse2 | eapply keep_trans; eassumption
+               | apply (wr_incl _ _ _ _ _ _ _ Hfall) | apply (wr_ncell _ _ _ _ _ _ _ Hfall)].
           * eapply xkeep_of_wframe. exact Hfall.
         + (* the body failed *)
           inversion Hgo; subst r0 s0'. exact (Hterm _ _ Hxp).
@@ -759,7 +781,7 @@ Proof.
       assert (Hn3 : (s_ncell stL2 <= s_ncell st3)%positive) by (destruct Hx3 as (_ & _ & _ & _ & _ & _ & H & _); exact H).
       pose proof (wr_ncell _ _ _ _ _ _ _ Hf2) as Hn2.
       split.
-      * eapply (rel_restrict pv sv bound u fl W sc e st e st1 E E2 stL st3); [exact Hrel | eapply rel_cells_ext; eassumption | exact Hk2 | lia].
+      * eapply (rel_restrict pv sv bound u fl W sc e st e st1 E E2 stL st3); [exact Hrel | eapply rel_cells_ext; eassumption | exact Hk2 | apply (wr_incl _ _ _ _ _ _ _ Hf2) | lia].
       * split; [lia|]. intros t p Hbt Hr Hp.
         destruct Hx3 as (_ & _ & _ & _ & _ & _ & _ & Hg). rewrite Hg by (pose proof (wf_alloc _ _ (r_wf _ _ _ _ _ _ _ _ _ _ _ Hrel) _ _ Hp); lia).
         apply (wr_cells _ _ _ _ _ _ _ Hf2 t p Hbt Hr Hp).
@@ -776,11 +798,11 @@ Proof.
          eexists _, _. split; [exact Hs1 | exact Hpost]. }
     cbn in Hev. inversion Hev; subst r st'. clear Hev.
     destruct (IHss g k statements ctx c cs c' e st _ st1 sc sc1 fl1 l E stL F He1 Hm Hs Hu Hctx Hrel I)
-      as (b1 & l1 & Hs1 & W1 & E1 & stL1 & F1 & Hx1 & Hf1 & Hrel1 & Hw1 & Hn1 & Hk1 & Hse1 & Hinc1 & _).
+      as (b1 & l1 & Hs1 & W1 & E1 & stL1 & F1 & Hx1 & Hf1 & Hrel1 & Hw1 & Hn1 & Hk1 & Hse1 & Hinc1).
     eexists _, _. split; [exact Hs1|].
     cbn [stmt_post]. exists E1, stL1, F1. split; [|split; [apply sext_refl | apply incl_refl]].
     split; [exact Hx1|]. split; [exact Hf1|]. split; [|split; assumption].
-    eapply (rel_shrink_w pv sv bound u fl W fl1 W1 sc sc1 e e1); [exact Hrel | exact Hrel1 | exact Hw1 | eapply frag_stmts_fnames; exact Hs | exact Hinc1 | exact Hse1].
+    eapply (rel_shrink_w pv sv bound u fl W fl1 W1 sc sc1 e e1); [exact Hrel | exact Hrel1 | exact Hw1 | eapply frag_stmts_flincl; exact Hs | exact Hinc1 | exact Hse1].
   - (* SStatementExpression *)
     rewrite frag_stmt_sexpr in Hfrag. cbn [statement] in Hlow. mon Hlow.
     destruct (frag_expr pv sv bound fl k sc value) eqn:Hfe; [|discriminate Hfrag]. inversion Hfrag; subst sc'.
@@ -814,7 +836,7 @@ Proof.
   - split; [exact Hr2|]. split.
     + split; [eapply incl_tran; eassumption|]. intros t Ht. destruct (Hn2 t Ht) as [H|H]; [|right; lia].
       destruct (Hn1 t H) as [H'|H']; [left; exact H' | right; lia].
-    + intros v Hv. rewrite (Hk2 v (Hi v Hv)). apply Hk1. exact Hv.
+    + eapply keep_trans_incl; eassumption.
 Qed.
 
 End Sim.
@@ -825,7 +847,7 @@ Variable pv : N.
 Variable sv : N.
 Variable bound : N.
 Variable u : counts.
-Variable fl : list (N * nat).
+Variable fl : list (N * kind).
 Variable W : world.
 
 Notation rel := (rel pv sv bound u fl W).
@@ -859,11 +881,12 @@ Proof.
           eexists _, _; (split; [exact Hs1|]); cbn [blk_post bv_post] in *; eapply (xpost_widen pv sv bound u fl W ctx sc e c c' lo hi); [exact Hpost | lia | lia]).
     cbn in Hev'. inversion Hev'; subst r st'. clear Hev'.
     destruct (IHss g k body ctx c cs c' e st _ st1 sc sc' flr l E stL F He1 Hm Hfrag Hu Hctx Hrel I)
-      as (b1 & l1 & Hs1 & W1 & E1 & stL1 & F1 & Hx1 & Hf1 & Hrel1 & Hw1 & _ & Hk1 & Hse1 & Hinc1 & _).
+      as (b1 & l1 & Hs1 & W1 & E1 & stL1 & F1 & Hx1 & Hf1 & Hrel1 & Hw1 & _ & Hk1 & Hse1 & Hinc1).
     eexists _, _. split; [exact Hs1|]. cbn [bv_post]. exists E1, stL1.
     split; [exact Hx1|]. split.
     { eapply (rel_leave pv sv bound u fl W flr W1 sc sc' e e1 st st1 E E1 stL stL1);
-        [exact Hrel | exact Hrel1 | exact Hw1 | eapply frag_stmts_fnames; exact Hfrag | exact Hinc1 | exact Hse1 | exact Hk1 | apply (wr_ncell _ _ _ _ _ _ _ Hf1)]. }
+        [exact Hrel | exact Hrel1 | exact Hw1 | eapply frag_stmts_flincl; exact Hfrag | exact Hinc1 | exact Hse1 | exact Hk1
+         | apply (wr_incl _ _ _ _ _ _ _ Hf1) | apply (wr_ncell _ _ _ _ _ _ _ Hf1)]. }
     split; [eapply xkeep_widen; [eapply xkeep_of_wframe; exact Hf1 | lia | lia]|].
     rewrite (wr_cells _ _ _ _ _ _ _ Hf1 out p Hbout Hoc Hp), Hcell. constructor. }
   destruct (rev body) as [|last init_rev] eqn:Hrev; [apply Hwhole; assumption|].
@@ -886,7 +909,7 @@ Proof.
   assert (Hasg : forall l0, cshape u l0 [IAssign out rv] (fst (agen_one u l0 (IAssign out rv))) l0 c' c')
     by (intros lx; apply cshape_plain; [lia | reflexivity | reflexivity | apply used_plain]).
   assert (Hctxi : ctx_ok l F E c c0) by (eapply ctx_sub; [exact Hctx | lia | lia]).
-  pose proof (frag_stmts_fnames pv sv bound _ _ _ _ _ _ Hfi) as Hfn.
+  pose proof (frag_stmts_flincl pv sv bound _ _ _ _ _ _ Hfi) as Hfn.
   unfold SyltSem.bind at 1 in Hev.
   destruct (SyltSem.exec_block n e (rev init_rev) st) as [[e1|o|cc] st1] eqn:He1.
   2,3: (inversion Hev; subst;
@@ -895,7 +918,7 @@ Proof.
         eexists _, _; (split; [eapply cshape_app; [exact Hs1|]; eapply cshape_app; [exact Hs2 | apply Hasg]|]);
         cbn [blk_post bv_post] in *; eapply exit_app; [eapply (xpost_widen pv sv bound u fl W ctx sc e c c0 lo hi); [exact Hpost | lia | lia] | apply N.le_refl]).
   destruct (IHss g k (rev init_rev) ctx c cs c0 e st _ st1 sc sc1 fl1 l E stL F He1 Hmi Hfi Hui Hctxi Hrel I)
-    as (b1 & l1 & Hs1 & W1 & E1 & stL1 & F1 & Hx1 & Hf1 & Hrel1 & Hw1 & HFn1 & Hk1 & Hse1 & Hinc1 & Hwn1).
+    as (b1 & l1 & Hs1 & W1 & E1 & stL1 & F1 & Hx1 & Hf1 & Hrel1 & Hw1 & HFn1 & Hk1 & Hse1 & Hinc1).
   assert (Hctx1 : ctx_ok l1 F1 E1 c0 c') by (eapply ctx_after_blk; eassumption).
   destruct (SyltSem.eval n e1 value st1) as [[v_|o|cc] st2] eqn:He2.
   2,3: (inversion Hev; subst;
@@ -913,9 +936,8 @@ Proof.
   { apply (wr_incl _ _ _ _ _ _ _ Hf2); [exact Hbout|]. apply (wr_incl _ _ _ _ _ _ _ Hf1); assumption. }
   assert (Hl2out : alut_get l2 out = None).
   { destruct Hs1 as (_ & _ & Hfr1 & _). destruct Hs2 as (_ & _ & Hfr2 & _). rewrite Hfr2 by lia. rewrite Hfr1 by lia. exact Hlout. }
-  assert (Hnp1 : forall lv, ~ w_IL W1 p lv).
-  { intros lv Hq. destruct (Hwn1 p lv Hq) as [Hq'|Hq']; [exact (Hnp lv Hq')|].
-    pose proof (wf_alloc _ _ (r_wf _ _ _ _ _ _ _ _ _ _ _ Hrel) _ _ Hp). lia. }
+  assert (Hnp1 : forall lv, ~ w_P W1 p lv).
+  { intros lv Hq. destruct Hw1 as (_ & _ & _ & HP & _). apply (Hnp lv). apply HP. exact Hq. }
   destruct (step_assign_temp pv sv bound u fl1 W1 sc1 e1 st2 F2 lo hi E2 stL2 l2 out rv p v_ Hrel2 Hblo Hout Hcout Hp2 Hnp1 Hl2out Hd2)
     as (stL3 & lv & Hok3 & Hlv & Hvr).
   assert (Hall : okstepS pv sv bound u fl1 W1 sc1 sc1 e1 st2 F1 lo hi E1 stL1 (b2 ++ fst (agen_one u l2 (IAssign out rv))) E2 stL3 F2).
@@ -926,8 +948,10 @@ Proof.
   eexists _, _. split; [eapply cshape_app; [exact Hs1|]; eapply cshape_app; [exact Hs2 | apply Hasg]|].
   cbn [bv_post]. exists E2, stL3. split; [eapply ExecS_app; eassumption|]. split.
   { eapply (rel_leave pv sv bound u fl W fl1 W1 sc sc1 e e1 st st2 E E2 stL stL3);
-      [exact Hrel | exact Hrela | exact Hw1 | exact Hfn | exact Hinc1 | exact Hse1 | | apply (wr_ncell _ _ _ _ _ _ _ Hfall)].
-    intros w Hw. rewrite (Hka w (Hinc1 w Hw)). apply Hk1. exact Hw. }
+      [exact Hrel | exact Hrela | exact Hw1 | exact Hfn | exact Hinc1 | exact Hse1 | | apply (wr_incl _ _ _ _ _ _ _ Hfall) | apply (wr_ncell _ _ _ _ _ _ _ Hfall)].
+    intros w Hw. rewrite Hka; [apply Hk1; exact Hw|].
+    destruct Hw as [Hw|Hw]; [left; apply Hinc1; exact Hw | right].
+    unfold fnames in *. apply in_map_iff in Hw as (x & <- & Hx). apply in_map. apply Hfn. exact Hx. }
   split; [eapply xkeep_of_wframe; exact Hfall | rewrite Hlv; exact Hvr].
 Qed.
 
